@@ -1,10 +1,12 @@
 //! Block `est`: estimated-time network (C15).
 //!
-//! For every generated scenario (single track with 0..k sidings of one or two links, also parallel to the
+//! For every generated scenario (single track with 0..4 sidings of one or two links, also parallel to the
 //! first / last segment so that there are several origin and destination links; trains in both
-//! directions; several departure times) the real `make_est_times` is run.  A `verif-hooks` observer
-//! hands out the node vector just before `update_times_forward`; the two (private) passes are then also
-//! driven by hand through the hook wrappers, which must reproduce the function's own result.
+//! directions; several departure times; a few routes too short for the train to depart) and for every
+//! corpus case (/verif/corpus/C15/*.json: replays of the repaired defects) the real `make_est_times` is
+//! run.  A `verif-hooks` observer hands out the node vector just before `update_times_forward`; the two
+//! (private) passes are then also driven by hand through the hook wrappers, which must reproduce the
+//! function's own result.
 //!
 //! Ops (the Lean driver must print the same answer):
 //!   est_forward  <nodes> <depart>                       -> ok <nodes> | panic     real update_times_forward
@@ -16,7 +18,8 @@
 //! patterns, ties), and the checkers on mutated graphs (must be rejected by both sides alike).
 //!
 //! ORACLE (independent of the model): every clause of C15 is re-checked on the implementation's output by
-//! exhaustive enumeration of all start-to-end walks.
+//! exhaustive enumeration of all start-to-end walks; known findings are reported under their own clause
+//! names (`time_sched_nonneg`, `short_route_never_departs`).
 use crate::dispgen::{gen_train, location};
 use crate::netgen::*;
 use crate::prng::Rng;
